@@ -38,6 +38,9 @@ def parse(path):
             if v[0] == "TR":
                 edges.append((tuple(v[1]), v[2], tuple(v[3])))
             elif v[0] == "ST":
+                prev = states.get(tuple(v[1]))
+                if prev is not None and prev["node"] != v[2]:
+                    raise Machinery(f"two different states share the node id {v[1]} (fingerprint collision): the emitted graph cannot be trusted")
                 states[tuple(v[1])] = {"node": v[2], "obs": v[3], "tobs": v[4]}
             elif v[0] == "ROOT":
                 r = tuple(v[1])
